@@ -612,8 +612,9 @@ def run_life_case(cid: str, case: Dict[str, Any]) -> List[str]:
                 r = "notConnected"
             except Exception as e:  # noqa: BLE001
                 r = f"crash:{type(e).__name__}"
-            if E["queue"]:
-                raise C.MachineryError("connect() did not take the prepared socket")
+            # a connect() that never asked for a new socket did not touch the prepared stream: that is an observation
+            # (0 bytes consumed, whatever connect() answered), not a failure of the harness
+            del E["queue"][:]
             cur = sock
             lines.append(f"COBS {sock.pos} {int(bool(c.connected))} {r}")
         elif kind == "read":
